@@ -34,6 +34,8 @@ type c03Cfg struct {
 	// Presend: history — BEFORE the judged Send the very same Msg objects were delivered once over a fault-free
 	// connection (all of them delivered, IsDelivered()==true); the judged Send then has to re-establish the truth
 	Presend bool `json:"presend,omitempty"`
+	// TLS: the session runs inside STARTTLS (real crypto/tls handshake on the in-memory connection)
+	TLS bool `json:"tls,omitempty"`
 }
 
 type c03Case struct {
@@ -188,6 +190,9 @@ func c03Exec(r *vf.Run, cfg c03Cfg, c *vf.Chooser) (keys, whats []string) {
 		}
 	}
 	sess := &refsmtp.Session{Host: hx.Host, Caps: []string{"8BITMIME", "ENHANCEDSTATUSCODES"}}
+	if cfg.TLS {
+		sess.Caps = append(sess.Caps, "STARTTLS")
+	}
 	xport := map[int]int{} // txn -> absolute content offset at which the transport fails
 	xportCls := map[int]int{}
 	stdM := stdScriptM(c)
@@ -196,7 +201,7 @@ func c03Exec(r *vf.Run, cfg c03Cfg, c *vf.Chooser) (keys, whats []string) {
 	}
 	sess.Script = func(s *refsmtp.Session, ev *refsmtp.Event, def refsmtp.Action) refsmtp.Action {
 		switch ev.Verb {
-		case "GREETING", "EHLO", "HELO", "QUIT":
+		case "GREETING", "EHLO", "HELO", "QUIT", "STARTTLS":
 			return def
 		case "EOD":
 			// alphabet {250, 4yz, 5yz, drop, other 2yz}
@@ -222,7 +227,7 @@ func c03Exec(r *vf.Run, cfg c03Cfg, c *vf.Chooser) (keys, whats []string) {
 					mi = i
 				}
 			}
-			if mi >= 0 {
+			if mi >= 0 && !cfg.TLS {
 				if k := c.Choose(fmt.Sprintf("transport#%d", ev.Txn), 7); k > 0 {
 					off := 0
 					switch k {
@@ -245,6 +250,7 @@ func c03Exec(r *vf.Run, cfg c03Cfg, c *vf.Chooser) (keys, whats []string) {
 		return a
 	}
 	conn := refsmtp.NewConn(sess)
+	conn.TLSConfig = hx.ServerTLS(hx.Mat().Good)
 	conn.FailInData = func(txn, have, n int) int {
 		off, ok := xport[txn]
 		if !ok {
@@ -279,6 +285,9 @@ func c03Exec(r *vf.Run, cfg c03Cfg, c *vf.Chooser) (keys, whats []string) {
 		return conn
 	}}
 	opts := []mail.Option{mail.WithDialContextFunc(rig.Dial), mail.WithHELO("client.example.test"), mail.WithTLSPolicy(mail.NoTLS)}
+	if cfg.TLS {
+		opts = append(opts, mail.WithTLSPolicy(mail.TLSMandatory), mail.WithTLSConfig(hx.ClientTLS(hx.Host)))
+	}
 	if cfg.NoOp {
 		opts = append(opts, mail.WithoutNoop())
 	}
@@ -571,7 +580,7 @@ func init() {
 	vf.Register(&vf.Check{
 		ID: "C03", Title: "only complete messages are committed; IsDelivered tells the truth",
 		Run: func(r *vf.Run) {
-			r.SetRule("batches of 1..3 messages over shapes {single, alternative, body+attachment, body+embed, body+attachment from a reader, body+embed from a read-seeker, single 8bit body, 8bit body + 8bit alternative + 7bit attachment}; (history) the same Msg objects delivered once over a fault-free connection BEFORE the judged Send; (history) the same Msg objects sent again over a fault-free connection, unchanged or after all their recipients were removed (second attempt refused before MAIL FROM); choice points: every content producer {ok, fail before first byte, fail after half — with a generic error, with io.EOF, with a wrapped io.EOF, with an error whose text reads like a 4yz / 5yz reply}, S/MIME signing of single-part messages {off, fails at render time before the first byte}, transport failure in each DATA phase at {never, first content byte, inside headers, inside a part body, just before the end, inside the end-of-data marker, inside the content of the last part}, server reply at NOOP/MAIL/RCPT/DATA/RSET {ok,4yz,5yz,drop,multi-line ok,421+disconnect} and at end-of-data {250,4yz,5yz,drop,251,multi-line 250}; all vectors with <= k deviations; oracle: server commit log vs. reference rendering of the same Msg objects; plus two goroutines calling Send on one established connection, every interleaving up to 2 preemptions (scheduler of C13), same oracle; distinct by (configuration, choice vector)")
+			r.SetRule("batches of 1..3 messages over shapes {single, alternative, body+attachment, body+embed, body+attachment from a reader, body+embed from a read-seeker, single 8bit body, 8bit body + 8bit alternative + 7bit attachment}; (history) the same Msg objects delivered once over a fault-free connection BEFORE the judged Send; (history) the same Msg objects sent again over a fault-free connection, unchanged or after all their recipients were removed (second attempt refused before MAIL FROM); choice points: every content producer {ok, fail before first byte, fail after half — with a generic error, with io.EOF, with a wrapped io.EOF, with an error whose text reads like a 4yz / 5yz reply}, S/MIME signing of single-part messages {off, fails at render time before the first byte}, transport failure in each DATA phase at {never, first content byte, inside headers, inside a part body, just before the end, inside the end-of-data marker, inside the content of the last part}, server reply at NOOP/MAIL/RCPT/DATA/RSET {ok,4yz,5yz,drop,multi-line ok,421+disconnect} and at end-of-data {250,4yz,5yz,drop,251,multi-line 250}; all vectors with <= k deviations; oracle: server commit log vs. reference rendering of the same Msg objects; plus the same batches inside a STARTTLS session (transport faults are not offered there); plus two goroutines calling Send on one established connection, every interleaving up to 2 preemptions (scheduler of C13), same oracle; distinct by (configuration, choice vector)")
 			r.Assume("the reference rendering is WriteTo on the same Msg after Send with faults disabled (default file encodings; repeatability itself is C11)",
 				"the transport's final CRLF after content that does not end in CRLF is not part of the message")
 			type job struct {
@@ -610,6 +619,7 @@ func init() {
 				jobs = append(jobs, job{c03Cfg{M: 1, Rot: rot, Resend: true}, b + 1}, job{c03Cfg{M: 2, Rot: rot, Resend: true}, b})
 				jobs = append(jobs, job{c03Cfg{M: 2, Rot: rot, Resend: true, ResendNoRcpt: true}, 1})
 				jobs = append(jobs, job{c03Cfg{M: 2, Rot: rot, Presend: true}, b}, job{c03Cfg{M: 3, Rot: rot, Presend: true}, 1})
+				jobs = append(jobs, job{c03Cfg{M: 2, Rot: rot, TLS: true}, 1}, job{c03Cfg{M: 1, Rot: rot, TLS: true}, b})
 			}
 			if !r.Thorough {
 				// quick still covers batches of 3 at bound 1
